@@ -351,6 +351,9 @@ class CompleteTask(TaskLevel):
 
     status: WorkflowStatus = WorkflowStatus.SUCCEEDED
     original_status: WorkflowStatus | None = None
+    # For a REDIRECT completion: the stage's _jump_count when the jump was requested.
+    # Lets the handler recognise a completion that belongs to an earlier loop iteration.
+    jump_count: int | None = None
 
 
 @dataclass
